@@ -259,7 +259,13 @@ Definition commands_in_range (c : pcase) : bool :=
     | _ => true
     end) (p_steps c).
 
+Definition mon11_snap (o : pstep) : bool :=
+  let n := st_snap o in
+  nodupN (map fst (n_requested n) ++ n_queue n) &&
+  ((count_requests (st_msgs o) =? 0) || (llen (n_requested n) <=? N.max 2 (nth 4 (n_exts n) 0))).
+
 Definition monitor11 (c : pcase) : bool :=
+  forallb mon11_snap (p_steps c) &&
   forallb mon11_step (snd (run_case c)) &&
   match unmatched c with Some (s, o) => mon11_sent s o | None => true end.
 Definition bad_monitor11 (cs : list pcase) : list N := map p_id (filter (fun c => negb (monitor11 c)) cs).
@@ -288,7 +294,16 @@ Definition mon16_step (x : pstate * res * pstep) : bool :=
   (llen (s_requested s') <=? upload_queue_max) &&
   (s_counter s' =? (if s_am_unchoking s' then 1 else 0))%Z.
 
+(* the state clauses, judged on the implementation's own snapshot after every step,
+   whether or not the model could follow the history *)
+Definition mon16_snap (o : pstep) : bool :=
+  let n := st_snap o in
+  let am := nth 3 (n_flags n) false in
+  (am || match n_upload n with [] => true | _ => false end) &&
+  (llen (n_upload n) <=? upload_queue_max).
+
 Definition monitor16 (c : pcase) : bool :=
+  forallb mon16_snap (p_steps c) &&
   forallb mon16_step (snd (run_case c)) &&
   match unmatched c with Some (s, o) => mon16_sent s o | None => true end.
 Definition bad_monitor16 (cs : list pcase) : list N := map p_id (filter (fun c => negb (monitor16 c)) cs).
